@@ -298,8 +298,8 @@ class DIP:
             if not target.branching.false_case() or node.keyword=='case':
                 node.inject_value(target)
                 parsed = node.parse(target)
-                if parsed: 
-                    # Add parsed nodes to the queue and continue
+                if parsed or isinstance(parsed, list):
+                    # Add parsed nodes (none, if an import selected nothing) to the queue and continue
                     queue.nodes.prepend(parsed)
                     continue
             # Create hierarchical name
